@@ -734,4 +734,26 @@ def mon_C14(stream, case, obs):
     return hits
 
 
-MONITORS = {"C14": mon_C14, "C06": mon_C06, "C08": mon_C08, "C01": mon_C01, "C02": mon_C02, "C03": mon_C03, "C10": mon_C10, "C12": mon_C12, "C13": mon_C13, "C16": mon_C16}
+def mon_C18(stream, case, obs):
+    """API calls made from inside a callback (stream `reentry`): the enclosing network-loop call must not fail with an
+    internal error, and what the nested call queued is written by the enclosing or the next loop call while the socket
+    accepts data"""
+    tr = Trace(case, obs)
+    hits = []
+    scripted_raise = 0
+    for st in tr.steps:
+        i, t, p = st["i"], st["t"], st["p"]
+        if t[0] == "raise_on_message":
+            scripted_raise += int(t[1])
+            continue
+        nested = [e for e in st["evs"] if e.startswith(("cbpub:", "cbsub:", "cbunsub:"))]
+        excs = [e for e in st["evs"] if e.startswith("exc:")]
+        if any(e.startswith("on_message") for e in st["evs"]) and scripted_raise > 0 and excs:
+            scripted_raise -= 1
+            continue
+        if nested and excs:
+            hits.append((i, "nested-call-exception", f"{' '.join(t[:3])}: {excs[0]} left the network loop after the application called {nested[0].split(':')[0][2:]}() inside a callback"))
+    return hits
+
+
+MONITORS = {"C18": mon_C18, "C14": mon_C14, "C06": mon_C06, "C08": mon_C08, "C01": mon_C01, "C02": mon_C02, "C03": mon_C03, "C10": mon_C10, "C12": mon_C12, "C13": mon_C13, "C16": mon_C16}
